@@ -205,6 +205,15 @@ func (w *originWalker) walk(v ssa.Value, idx int, e *env, depth int) {
 		for _, b := range FreeVarBinding(t) {
 			w.walk(b, idx, e, depth+1)
 		}
+	case *ssa.Alloc:
+		// a variable cell (captured by reference): whatever is stored into it
+		sts := StoresTo(t)
+		if len(sts) == 0 {
+			w.leaf(v, idx, "other")
+		}
+		for _, st := range sts {
+			w.walk(st.Val, idx, e, depth+1)
+		}
 	case *ssa.Parameter:
 		w.param(t, idx, e, depth)
 	case *ssa.Call:
